@@ -64,9 +64,10 @@ body of the enclosing function, on the AST, with no semantic analysis.
    pointer argument) are NOT seen.  This is the stated limit of the rule.
  A fill whose destination is neither `V` nor an alias shape counts as an appending fill
  of every local/parameter pointer it mentions.
- Guard of V: a call `legal_path(x)`, x peeling to DeclRef V, ANYWHERE in the function
- (no dominance: the site may textually precede it, and it is not checked that the
- result is tested), provided no event of V lies textually after that call.
+ Guard of V: a call `legal_path(x)`, x peeling to DeclRef V, that ends textually BEFORE
+ the read of V that is classified (a site in front of its guard is not guarded; it is
+ not checked that the result is tested, nor that the call is on every path), provided
+ no event of V lies textually after that call.
 
  Nearest preceding definition (applied uniformly).  For a read of V at position t the
  reaching events are computed textually:
@@ -770,7 +771,10 @@ class Fn:
                     p = self.bpos(s)
                     o = self.classify_expr(s, p, p, depth + 1, stack)
                     contribs.append((o, ev["via"], "fill"))
-        return self.join(contribs, cvp, v in self.guards, v, name)
+        # the guard must textually PRECEDE the read (the `legal_path (V)` call ends before the site argument begins):
+        # a site placed in front of its guard is not guarded
+        guarded = v in self.guards and any(g <= t for g in self.guard_pos.get(v, []))
+        return self.join(contribs, cvp, guarded, v, name)
 
     def join(self, contribs, cvp, guarded, v, name):
         origins = [o for (o, _, _) in contribs if o is not None]
